@@ -5,7 +5,7 @@ captured man removed — for en passant the pawn beside the destination —, roo
 flipped, rights removed exactly for a king or rook that moved and a rook captured on its home square, en-passant
 mark exactly after a double step, clocks reset / incremented without wrapping, nothing else changes).
 -/
-import OwlModel.Lemmas.Apply
+import OwlModel.Lemmas.Capture
 import OwlModel.Props.C04
 import OwlModel.Props.C11
 
@@ -42,6 +42,56 @@ theorem validate_one_king (raw : RawBoard) (b : Board) (hv : validate raw = .ok 
   obtain ⟨k, hl⟩ := List.length_eq_one_iff.mp hlen
   rw [hl] at h1 h2
   rw [List.mem_singleton.mp h1, List.mem_singleton.mp h2]
+
+/-- in a position from the validation gate no well-formed semilegal move captures a king -/
+theorem no_king_capture (raw : RawBoard) (b : Board) (hv : validate raw = .ok b) (mv : Move)
+    (hwf : mv.isWellFormed = true) (hsl : isSemilegal b mv = true) (c : Color) : b.get mv.dst ≠ Cell.mk c .king := by
+  intro hking
+  have hs := validate_shape raw b hv
+  obtain ⟨_, _, _, hdst⟩ := semilegal_base b mv hsl
+  have hc : c = b.r.side.inv := by
+    rw [hking, color_mk] at hdst
+    cases c <;> cases hsd : b.r.side <;> simp_all [Color.inv]
+  subst hc
+  have hatt := semilegal_capture_attacks b mv hs hwf hsl (by rw [hking]; exact mk_ne_zero _ _)
+  -- the gate guarantees that the side not to move is not attacked
+  obtain ⟨hvalid, habs, _⟩ := C11.validate_ok raw b hv
+  obtain ⟨_, _, _, _, _, _, hnc⟩ := (C11.validRaw_iff (abs raw)).mp hvalid
+  rw [← habs] at hnc
+  have hside : (abs raw).side = b.r.side := by
+    have := congrArg Spec.Pos.side habs
+    rw [abs_side] at this
+    exact this.symm
+  rw [hside] at hnc
+  have hk : Spec.kingSq (abs b.r) b.r.side.inv = some mv.dst := by
+    rw [← kingPos_eq b hs.cons]
+    unfold Board.kingPos? BB.first?
+    -- the first king square is the only king square
+    cases hf : List.find? (fun s => (b.piece2 b.r.side.inv Piece.king).has s) Sq.all with
+    | none =>
+      have := List.find?_eq_none.mp hf mv.dst (List.mem_finRange _)
+      rw [piece2_has b hs.cons] at this
+      simp [hking] at this
+    | some k =>
+      have hkk := List.find?_some hf
+      rw [piece2_has b hs.cons] at hkk
+      have := validate_one_king raw b hv b.r.side.inv k mv.dst (by simpa using hkk) hking
+      rw [this]
+  unfold Spec.inCheck at hnc
+  rw [hk] at hnc
+  simp only [Option.any_some, Color.inv_inv] at hnc
+  rw [← isCellAttacked_iff b hs.cons] at hnc
+  rw [hatt] at hnc
+  cases hnc
+
+/-- C03 for every position accepted by validation and every well-formed semilegal (in particular every legal) move -/
+theorem make_refines_apply_valid (raw : RawBoard) (b : Board) (hv : validate raw = .ok b) (mv : Move)
+    (hwf : mv.isWellFormed = true) (hsl : isSemilegal b mv = true) :
+    ∃ sm, absMove mv = some sm ∧ abs (makeMove b mv).1.r = Spec.apply (abs b.r) sm :=
+  Lemmas.make_refines_apply b mv
+    { shape := validate_shape raw b hv, wf := hwf, sl := hsl,
+      oneKing := fun c s t hs ht => validate_one_king raw b hv c s t hs ht,
+      noKingCapture := fun c => no_king_capture raw b hv mv hwf hsl c }
 
 /-- neither counter ever wraps: both stay within the u16 range and never decrease except for the clock reset -/
 theorem counters_no_wrap (b : Board) (mv : Move) (hmc : b.r.mc ≤ 65535) (hmn : b.r.mn ≤ 65535) :
